@@ -25,7 +25,10 @@ def translate():
     t = _ns(fn)
     for k in ("u", "x", "logl"):
         need(f"{k}=self.state.get_history('{k}',flat=True)" in t, fn, f"pool field {k}", w)
-    need("blobs=self.state.get_history('blobs',flat=True)ifself.have_blobselseNone" in t, fn, "pool blobs", w)
+    # blobs are carried whenever the state holds some (configured dtype or inferred), with the same selector as the other fields
+    need("have_blobs=self.have_blobsorself.state.get_current('blobs')isnotNone" in t
+         and "blobs=self.state.get_history('blobs',flat=True)ifhave_blobselseNone" in t
+         and "ifhave_blobs:self.state.set_current('blobs',blobs[idx_resampled])" in t.replace("\n", ""), fn, "pool blobs", w)
     sel = {}
     for node in ast.walk(fn):
         if isinstance(node, ast.Subscript) and _ns(node.value) in ("u", "x", "logl", "blobs") and isinstance(node.slice, ast.Name):
@@ -79,6 +82,8 @@ def translate():
     need([r[0] for r in rep] == ["x", "u", "logl", "blobs"], fn, f"replacement fields {rep}", w)
     need("'u':u,'x':x,'logl':logl,'efficiency':efficiency" in t and "self.state.set_current('blobs',blobs.copy())" in t, fn, "write-back", w)
     need("u=self.state.get_current('u'),x=self.state.get_current('x'),logl=self.state.get_current('logl'),blobs=blobs" in t, fn, "kernel inputs", w)
+    need("blobs=self.state.get_current('blobs')" in t and "ifblobsisnotNone:self.state.set_current('blobs',blobs.copy())" in t.replace("\n", "")
+         and "self.have_blobs" not in t.split("parallel_mcmc(")[0].split("return")[-1], fn, "blobs travel with the particles whenever the state holds some", w)
     cm = _ns(get_function(REPO / "tempest" / "state_manager.py", "StateManager.commit_current_to_history"))
     need("forcurrent_keyinCURRENT_STATE_KEYS:" in cm.replace("\n", "") and "self._history[current_key].append(" in cm, fn, "commit", "state_manager.py")
 
@@ -156,9 +161,18 @@ def run_cfg(run, cfg, seed, tier):
             v = -np.inf
         return (v, Lblob(x)) if blobs else v
 
-    like = (lambda X: np.array([scalar(x) for x in X])) if vec else scalar
+    bufs = {}
+
+    def vec_buffer(X):
+        # a vectorised likelihood that fills and returns ONE reused output array per batch size (an out= style / compiled wrapper)
+        b = bufs.setdefault(len(X), np.empty(len(X)))
+        b[:] = [scalar(x) for x in X]
+        return b
+
+    like = vec_buffer if vec == "buffer" else (lambda X: np.array([scalar(x) for x in X])) if vec else scalar
     np.random.seed(seed)
-    s = Sampler(T, like, n_dim=2, n_particles=10, vectorize=vec, blobs_dtype=float if blobs else None, **cfg)
+    # blobs == "inferred": the likelihood returns (logl, blob) but no blobs_dtype is configured (the dtype is inferred from the values)
+    s = Sampler(T, like, n_dim=2, n_particles=cfg.pop("n_particles", 10), vectorize=bool(vec), blobs_dtype=float if blobs is True else None, **cfg)
     core = s._core
     ok = [True]
 
@@ -203,13 +217,33 @@ def run_cfg(run, cfg, seed, tier):
             run.fail("inf-particle-stored", f"history batch {k} contains -inf log-likelihood", **what)
             return
     for (res, trim) in itertools.product([False, True], repeat=2):
-        out = s.posterior(resample=res, trim_importance_weights=trim, return_blobs=blobs, ess_trim=0.8, bins_trim=20)
+        out = s.posterior(resample=res, trim_importance_weights=trim, return_blobs=bool(blobs), ess_trim=0.8, bins_trim=20)
         x, w, l = out[0], out[1], out[2]
         b = out[3] if blobs else None
         for i in range(len(x)):
             if Lval(x[i]) != l[i] or (b is not None and Lblob(x[i]) != b[i]):
                 run.fail("posterior-record-incoherent", f"posterior(resample={res}, trim={trim}) row {i}: logl/blob do not belong to x", **what)
                 return
+    # what the user does to a returned dictionary must not come back: results(), overwrite every array in place, results() again
+    r1 = s.results()
+    for v_ in r1.values():
+        for a_ in (v_ if isinstance(v_, (list, tuple)) else [v_]):
+            if isinstance(a_, np.ndarray) and a_.dtype != object and a_.size:
+                try:
+                    a_[...] = 0.123
+                except (ValueError, TypeError):
+                    pass
+    r2 = s.results()
+    ru, rx, rl = r2.get("u"), r2.get("x"), r2.get("logl")
+    if ru is not None and rx is not None and rl is not None:
+        for k_, (ub, xb, lb) in enumerate(zip(ru, rx, rl)):
+            if not check_batch(run, ub, xb, lb, None, f"results() after the caller overwrote an earlier results() in place, batch {k_}", what):
+                return
+    if blobs:
+        r = s.results()
+        rb, rx = r.get("blobs"), r.get("x")
+        if rb is not None and any(Lblob(xi) != bi for xb, bb in zip(rx, rb) for xi, bi in zip(xb, np.asarray(bb))):
+            run.fail("results-record-incoherent", "results(): a stored blob is not the blob of the particle in its row", **what)
 
 
 def audit(run, s, blobs, where, what):
@@ -304,8 +338,8 @@ def edge_planted(run, tier, rng):
 
 
 def sweep(run, tier, rng):
-    opts = dict(sample=["tpcn", "rwm"], resample=["mult", "syst"], clustering=[False, True], blobs=[False, True],
-                vectorize=[False, True], bc=["none", "periodic", "reflective", "mixed"], vv=[None, 0.5], hole=[False, True],
+    opts = dict(sample=["tpcn", "rwm"], resample=["mult", "syst"], clustering=[False, True], blobs=[False, True, "inferred"],
+                vectorize=[False, True, "buffer"], bc=["none", "periodic", "reflective", "mixed"], vv=[None, 0.5], hole=[False, True],
                 centre=[0.0, 3.6])
     keys = list(opts)
     # pairwise covering by random greedy
@@ -337,6 +371,11 @@ def sweep(run, tier, rng):
         CENTRE[0] = r["centre"]
         run_cfg(run, cfg, rng.randrange(2 ** 31), tier)
     CENTRE[0] = 0.0
+    # few walkers and a likelihood that reuses its output array: steps in which EVERY walker accepts alternate with steps that reject
+    for kind in ("tpcn", "rwm"):
+        cfg = dict(sample=kind, resample="mult", clustering=False, blobs=False, vectorize="buffer", volume_variation=None, hole=False, n_particles=4)
+        run.case(key=("cfg", "few-walkers-buffer", kind), nontrivial=True)
+        run_cfg(run, cfg, rng.randrange(2 ** 31), tier)
     run.sample(dict(first_rows=[str(r) for r in rows[:3]], uncovered_pairs=len(want)))
 
 
